@@ -58,8 +58,11 @@ MutinyStream<'a, ItemType, ChannelConsumerType, DerivedItemType> {
         match event {
             Some(_) => Poll::Ready(event),
             None => {
+                #[cfg(feature = "verif")] crate::verif::point(crate::verif::MS_AFTER_CONSUME_NONE);
                 if self.events_source.keep_stream_running(self.stream_id) {
+                    #[cfg(feature = "verif")] crate::verif::point(crate::verif::MS_AFTER_KEEP_RUNNING);
                     self.events_source.register_stream_waker(self.stream_id, cx.waker());
+                    #[cfg(feature = "verif")] crate::verif::point(crate::verif::MS_BEFORE_PENDING);
                     Poll::Pending
                 } else {
                     Poll::Ready(None)
